@@ -1,19 +1,28 @@
 (* Properties_C09.v -- property C09: iv_event_raw: posts from threads, signal handlers, children reach the owner.  Statements only.
    Every theorem quantifies over ALL well-formed scenarios: all handler scripts, all kernel behaviours the scenario
-   language can express, all four poll methods, all fault sets, any wait limit.
-   STATUS: the full statement of this property on the core model is `mon_C09 (run_scenario sc) = true`
-   (see Properties_C09.v.draft); the theorems below are the monitor clauses already proved (named _partial);
-   the remaining clauses (901 902) are checked on every implementation AND model trace by the extracted monitor
-   while their proofs are being completed. *)
-From Coq Require Import List ZArith Bool.
-From Ivv Require Import Core.Kernel Core.CoreTypes Core.CoreFd Core.CoreModel Core.Monitors Core.CoreSpec
-  Core.CoreRel Core.CoreCodes.
+   language can express (conditions changed at any point, ready order rotations, external posts), all four poll
+   methods, all fault sets (EINTR at any wait / epoll_ctl, missing system calls), any wait limit. *)
+From Coq Require Import List ZArith Bool Lia.
+From Ivv Require Import Core.Kernel Core.CoreTypes Core.CoreFd Core.CoreModel Core.Monitors Core.GuardMon Core.CoreSpec
+  Core.CoreInv Core.CoreRel Core.CorePhase2TimeC09 Core.CoreExamples.
 Import ListNotations.
 Local Open Scope Z_scope.
 
-(* a raw-event callback is only for a registered object *)
-Theorem C09_registered_partial :
-  forall sc, wf_scenario sc -> no_code [105] (mon_fails (run_scenario sc)).
-Proof. intros sc Hwf. eapply no_code_sub; [|exact (codes_C01 sc Hwf)]. simpl; intros c Hc; intuition. Qed.
-Print Assumptions C09_registered_partial.
+Definition no_code (codes : list Z) (tr : list Z) : Prop := forall c, In c tr -> ~ In c codes.
 
+(* a raw-event callback only for a registered object (105); the loop never sleeps (902) nor blocks for ever (901)
+   while a post made after the last handler entry is undelivered -- on eventfd2, old eventfd and the pipe fall-back *)
+Theorem C09_raw_posts_delivered :
+  forall sc, wf_scenario sc -> mon_C09 (run_scenario sc) = true.
+Proof. exact core_mon_C09. Qed.
+Print Assumptions C09_raw_posts_delivered.
+
+(* non-vacuity: a well-formed run on every poll method in which a raw event is posted from a timer handler, the next
+   wait returns at once with the raw event's descriptor reported and its handler runs *)
+Example C09_nonvacuous :
+  forall be, In be [0; 1; 2; 3] ->
+    wf_scenario (ex_all be) /\ In (TCallRaw 0) (run_scenario (ex_all be)) /\ mon_fails (run_scenario (ex_all be)) = [].
+Proof.
+  intros be H. split; [apply ex_all_wf; cbn [In] in H; intuition lia|].
+  pose proof (ex_all_runs be H) as R. cbv zeta in R. tauto.
+Qed.
